@@ -18,6 +18,7 @@ mod cmd_partial;
 mod cmd_pset;
 mod cmd_batched;
 mod cmd_valeval;
+mod cmd_schema_syn;
 
 /// Command families.  To add one: create src/cmd_xxx.rs with
 /// `pub fn dispatch(cmd: &str, v: &J) -> Option<Result<J, String>>`, add `mod cmd_xxx;` above
@@ -35,6 +36,7 @@ const FAMILIES: &[fn(&str, &J) -> Option<Result<J, String>>] = &[
     cmd_pset::dispatch,
     cmd_batched::dispatch,
     cmd_valeval::dispatch,
+    cmd_schema_syn::dispatch,
 ];
 
 fn dispatch(cmd: &str, v: &J) -> Result<J, String> {
